@@ -2134,4 +2134,81 @@ theorem C02_vm_nonforced_removal_no_loss (s : State) (v : Nat) (moves : List Mov
   · exact h2
 
 
+/-! ## the repaired tree (`stepF`) -/
+
+theorem unaliasGo_spec (cache : List (SectorId × BufId)) : ∀ (heap : List Content),
+    (∀ e ∈ cache, heap[e.2]? = some (.dataOf e.1)) →
+    (∀ e ∈ (unaliasGo heap cache).2, (unaliasGo heap cache).1[e.2]? = some (.dataOf e.1)) ∧
+    (∀ (b : Nat) (c : Content), heap[b]? = some c → (unaliasGo heap cache).1[b]? = some c) ∧
+    (∀ e ∈ (unaliasGo heap cache).2, heap.length ≤ e.2) := by
+  induction cache with
+  | nil => intro heap _; simp [unaliasGo]
+  | cons x xs ih =>
+    intro heap hc
+    obtain ⟨r, b⟩ := x
+    have hb : heap[b]? = some (.dataOf r) := hc (r, b) (by simp)
+    simp only [unaliasGo, hb]
+    have hc' : ∀ e ∈ xs, (heap ++ [Content.dataOf r])[e.2]? = some (.dataOf e.1) :=
+      fun e he => heap_append_get (hc e (List.mem_cons_of_mem _ he))
+    obtain ⟨h1, h2, h3⟩ := ih (heap ++ [Content.dataOf r]) hc'
+    refine ⟨?_, ?_, ?_⟩
+    · intro e he
+      simp only [List.mem_cons] at he
+      rcases he with rfl | he
+      · exact h2 heap.length (.dataOf r) (by simp)
+      · exact h1 e he
+    · intro b' c hb'
+      exact h2 b' c (heap_append_get hb')
+    · intro e he
+      simp only [List.mem_cons] at he
+      rcases he with rfl | he
+      · exact Nat.le_refl _
+      · have := h3 e he; simp at this; omega
+
+theorem unalias_data {s : State} (h : DataInv s) : DataInv (unalias s) := by
+  obtain ⟨h1, _, _⟩ := unaliasGo_spec s.cache s.heap h.cacheGood
+  exact dataInv_frame h rfl rfl rfl (fun _ hx => hx) (fun r hr => Or.inl hr) h.freshSafe h.freshRec h1 (fun _ hx => hx) (fun _ hx => hx)
+
+/-- copy semantics: after `unalias` no buffer that existed before is shared with the cache, so a caller
+patching a buffer it was handed cannot touch a cached sector (the `mutate` clause of `Safe` is then met
+by every real caller) -/
+theorem unalias_fresh {s : State} (h : DataInv s) : ∀ e ∈ (unalias s).cache, s.heap.length ≤ e.2 :=
+  (unaliasGo_spec s.cache s.heap h.cacheGood).2.2
+
+theorem fixCache_inv (f : Facts) {s : State} (h : Inv s) : Inv (fixCache f s) := by
+  simp only [fixCache]; split
+  · exact ⟨unalias_ok h.1, unalias_data h.2⟩
+  · exact h
+
+theorem stepF_inv (f : Facts) {s : State} (h : Inv s) (op : Op) (hs : Safe s op) : Inv (stepF f s op).1 := by
+  simp only [stepF]
+  apply fixCache_inv
+  cases op with
+  | finish w ok =>
+    have := step_inv f h (.finish w ok) hs
+    simp only [finishF]
+    split
+    · rw [finishChecked_eq h.1]; exact this
+    · exact this
+  | _ => exact step_inv f h _ hs
+
+def SafeRunF (f : Facts) : State → List Op → Prop
+  | _, [] => True
+  | s, op :: ops => Safe s op ∧ SafeRunF f (stepF f s op).1 ops
+
+/-- `C02_read_intact_partial` for the tree selected by `f` -/
+theorem C02_read_intact_partial_F (f : Facts) (ops : List Op) : ∀ (s : State), Inv s → SafeRunF f s ops → Inv (runF f s ops) := by
+  induction ops with
+  | nil => intro s h _; exact h
+  | cons op ops ih =>
+    intro s h hs
+    simp only [runF, List.foldl_cons]
+    exact ih _ (stepF_inv f h op hs.1) hs.2
+
+/-- with a copying cache the RHP update pattern of `C02_cache_alias_witness` leaves the old root intact -/
+theorem C02_cache_alias_fixed :
+    readContent (runF Facts.fixed (init 4) aliasOps) 1 = some (.dataOf 1) ∧
+      readContent (runF Facts.fixed (init 4) aliasOps) 2 = some (.dataOf 2) := by decide
+
+
 end Hostd.Props.C02
